@@ -78,6 +78,72 @@ theorem merge_trans (segs : List Seg) (h : PathOk segs) : merge6793 (transSegs s
     have := h s0 h0
     exact ⟨this.1, by simpa using this.2.1⟩
 
+/-- A confederation segment counts for nothing and is taken with what precedes the cut (RFC 6793 §4.2.3). -/
+theorem takeUnits_confed_prefix (c rest : List Seg) (k : Nat) (hc : ∀ s ∈ c, s.1 ≠ 1 ∧ s.1 ≠ 2) :
+    takeUnits k (c ++ rest) = c ++ takeUnits k rest := by
+  induction c with
+  | nil => rfl
+  | cons s t ih =>
+    have hs := hc s (by simp)
+    have ht := ih (fun x hx => hc x (List.mem_cons_of_mem _ hx))
+    simp only [List.cons_append]
+    rw [takeUnits]
+    simp [hs.1, hs.2, ht]
+
+theorem pathCount_confed (c : List Seg) (hc : ∀ s ∈ c, s.1 ≠ 1 ∧ s.1 ≠ 2) : pathCount c = 0 := by
+  induction c with
+  | nil => rfl
+  | cons s t ih =>
+    have hs := hc s (by simp)
+    simp [pathCount, segCount, hs.1, hs.2, ih (fun x hx => hc x (List.mem_cons_of_mem _ hx))]
+
+theorem plainSegs_confed_append (c p : List Seg) (hc : ∀ s ∈ c, s.1 ≠ 1 ∧ s.1 ≠ 2) (hp : ∀ s ∈ p, s.1 = 1 ∨ s.1 = 2) :
+    plainSegs (c ++ p) = p := by
+  unfold plainSegs
+  rw [List.filter_append]
+  have e1 : c.filter (fun s => s.1 == 1 || s.1 == 2) = [] := by
+    apply List.filter_eq_nil_iff.2
+    intro s hs
+    have := hc s hs
+    simp [this.1, this.2]
+  have e2 : p.filter (fun s => s.1 == 1 || s.1 == 2) = p := by
+    apply List.filter_eq_self.2
+    intro s hs
+    rcases hp s hs with h | h <;> simp [h]
+  rw [e1, e2]; rfl
+
+/-- **What a 2-octet session carries of a path with confederation segments** (RFC 5065: they lead the path).
+    The sender writes AS_PATH with AS_TRANS for every AS number above 65535 and AS4_PATH with the AS_SEQUENCE /
+    AS_SET segments only (RFC 6793 §3); the receiver's reconstruction gives the confederation segments as they
+    travelled (members above 65535 as AS_TRANS: nothing carries them) followed by the true AS_SEQUENCE / AS_SET
+    segments. -/
+theorem merge_trans_confed (c p : List Seg) (hc : ∀ s ∈ c, s.1 ≠ 1 ∧ s.1 ≠ 2)
+    (hp : ∀ s ∈ p, (s.1 = 1 ∨ s.1 = 2) ∧ 1 ≤ s.2.length) :
+    merge6793 (transSegs (c ++ p)) (plainSegs (c ++ p)) = transSegs c ++ p := by
+  have hpl : plainSegs (c ++ p) = p := plainSegs_confed_append c p hc (fun s hs => (hp s hs).1)
+  have hpp : plainSegs p = p := by
+    have := plainSegs_confed_append [] p (by simp) (fun s hs => (hp s hs).1)
+    simpa using this
+  have hcT : ∀ s ∈ transSegs c, s.1 ≠ 1 ∧ s.1 ≠ 2 := by
+    intro s hs
+    simp only [transSegs, List.mem_map] at hs
+    obtain ⟨s0, h0, e⟩ := hs
+    subst e
+    exact hc s0 h0
+  have hpT : ∀ s ∈ transSegs p, (s.1 = 1 ∨ s.1 = 2) ∧ 1 ≤ s.2.length := by
+    intro s hs
+    simp only [transSegs, List.mem_map] at hs
+    obtain ⟨s0, h0, e⟩ := hs
+    subst e
+    have := hp s0 h0
+    exact ⟨this.1, by simpa using this.2⟩
+  have hsplit : transSegs (c ++ p) = transSegs c ++ transSegs p := by simp [transSegs]
+  unfold merge6793
+  rw [hpl, hpp, pathCount_transSegs, pathCount_append, pathCount_confed c hc]
+  simp only [Nat.zero_add, Nat.lt_irrefl, if_false, Nat.sub_self]
+  rw [hsplit, takeUnits_confed_prefix _ _ _ hcT, takeUnits_zero _ hpT]
+  simp
+
 /-! ### the finders on the block -/
 
 section
